@@ -500,22 +500,22 @@ def write_evidence(prop, tier, seed, runs, wall, budget, workers, nviol, known_s
 
 
 EXPECTED_PROBES = {
-    "C01": ["fame-decided-at-distance-3", "fame-decided-at-distance-5", "coin-round-vote-exact-supermajority", "validator-set-change", "async-gossip", "synthetic-split-vote-template", "dagreplay-variant:delay", "dagreplay-variant:near-early", "dagreplay-variant:near-late", "synthetic-near-miss-history-strong", "synthetic-leave-history", "synthetic-leave-conflict-in-model", "refmodel-cross-checked"],
+    "C01": ["fame-decided-at-distance-3", "fame-decided-at-distance-5", "coin-round-vote-exact-supermajority", "validator-set-change", "async-gossip", "synthetic-split-vote-template", "dagreplay-variant:delay", "dagreplay-variant:near-early", "dagreplay-variant:near-late", "synthetic-near-miss-history-strong", "synthetic-leave-history", "synthetic-leave-conflict-in-model", "refmodel-cross-checked", "synthetic-deep-election-history"],
     "C02": ["validator-set-change", "re-fast-forward", "async-gossip", "late-request-executed", "joiner-spawned"],
     "C03": ["dagreplay-variant:view", "dagreplay-variant:order", "dagreplay-variant:delay", "dagreplay-variant:subdag", "dagreplay-variant:store", "dagreplay-variant:smallbadger", "dagreplay-variant:batch", "synthetic-dag"],
     "C04": ["c04-order-checked", "backlog-larger-than-half-the-cache"],
     "C05": ["submit-from-commit-callback", "async-gossip", "node-killed"],
-    "C06": ["c06-liveness-evaluated", "validator-set-change", "submit-from-commit-callback"],
+    "C06": ["c06-liveness-evaluated", "validator-set-change", "submit-from-commit-callback", "synthetic-deep-election-history", "c06-synthetic-fair-continuation-checked", "synthetic-coin-bit-ground", "fame-decided-at-distance-9", "directed-early-leave"],
     "C07": ["c07-admitted", "c07-rejected", "c07-attempt-with-valid-membership-payload", "c07-stale-head-attempt"],
-    "C08": ["c08-input:raw-bytes", "c08-input:sync", "c08-input:eager", "c08-input:join", "c08-input:ff", "c08-input:syncresp", "c08-input:ffresp", "c08-valid-join-request-copies", "c07-attempt:no-self-parent-huge-index"],
+    "C08": ["c08-input:raw-bytes", "c08-input:sync", "c08-input:eager", "c08-input:join", "c08-input:ff", "c08-input:syncresp", "c08-input:ffresp", "c08-valid-join-request-copies", "c07-attempt:no-self-parent-huge-index", "c08-rolled-window-instance", "c08-input:known-index-on-rolled-window"],
     "C09": ["c09-anchor-checked", "c09-hostile-signatures:malformed", "c09-hostile-signatures:other-body", "validator-set-change"],
     "C10": ["c10-history-checked", "c10-quorum-round-checked", "c10-quorum-decided-round-checked", "c10-fame-decision-checked", "c10-fame-decision-across-set-change-checked", "validator-set-change"],
-    "C11": ["shadow-bootstrap", "restart-bootstrap", "crash-inside-insertion", "crash-between-ancestor-updates", "shadow-continuation", "store-point"],
+    "C11": ["shadow-bootstrap", "restart-bootstrap", "crash-inside-insertion", "crash-between-ancestor-updates", "shadow-continuation", "store-point", "recovered-block-read-from-database"],
     "C12": ["ff-refused", "ff-accepted", "ff-attempt-on-previously-adopted-pair", "ff-attempt:sigs-below-threshold-plus-strangers", "ff-attempt:body-statehash-resigned-by-one-member"],
-    "C13": ["fastforward-ok", "re-fast-forward", "c13-ff-history-checked", "pile-reff", "permute:InmemStore.Reset"],
+    "C13": ["fastforward-ok", "re-fast-forward", "c13-ff-history-checked", "pile-reff", "permute:InmemStore.Reset", "directed-early-leave", "ff-window-push"],
     "C14": ["ff-attempt:forged-validator-set", "ff-forged-set-offered-again", "ff-forged-set-after-forged-join-response"],
     "C15": ["c15-wire-roundtrip", "c15-block-json", "c15-frame-json", "c15-db-events-reloaded", "c15-frame-handover", "wire-rpc"],
-    "C16": ["c16-ops-applied", "c16-reopens", "c16-restart-after-kill", "c16-reset-checked", "c16-write-through-checked"],
+    "C16": ["c16-ops-applied", "c16-reopens", "c16-restart-after-kill", "c16-reset-checked", "c16-write-through-checked", "c16-event-written-again-after-commit-error"],
     "C17": ["c17-runtime-suspend", "auto-suspended", "c17-suspended-sync-checked", "c17-leave-then-restart", "c17-maintenance-session-opened", "c17-maintenance-session-closed", "c17-suspend-with-routine-in-flight", "c17-starve", "c17-leave-then-restart-driven-to-suspension"],
     "C18": ["c18-block-checked", "c18-liar-among-famous-witnesses"],
     "C20": ["c20-commit-checked", "c20-submit-checked", "c20-call-failed-with-error", "c20-block-delivered-more-than-once"],
